@@ -210,4 +210,10 @@ var c02 = gen.Register(&gen.Check[caseC02]{
 	},
 })
 
-func TestC02GroupLaw(t *testing.T) { c02.Execute(t) }
+func TestC02GroupLaw(t *testing.T) {
+	if !pt.Calibrated() {
+		// API-only build (or a tree whose coordinates are not homogeneous projective): the white-box classes cannot occur
+		c02.Required = without(c02.Required, "aimed-intermediate")
+	}
+	c02.Execute(t)
+}
